@@ -15,7 +15,7 @@ def recomputeGen (F : C20.Files) : Bool := !validCacheGen F
 
 theorem validCacheGen_eq_model (F : C20.Files) : validCacheGen F = C20.validCache F := by
   rcases F with ⟨c, ini, npz, l⟩
-  cases npz <;> cases ini <;> cases l <;> simp [validCacheGen, C20.validCache] <;> omega
+  cases npz <;> cases ini <;> cases l <;> simp [validCacheGen, C20.validCache] <;> first | omega | grind
 
 /-- the served fit is recomputed (and the cache rewritten) exactly when the model's `step … .pre` does so -/
 theorem recomputeGen_eq_model (F : C20.Files) : recomputeGen F = !C20.validCache F := by
